@@ -97,6 +97,11 @@ def interpreter_settings():
     put("warnings.filters", lambda: [(f[0], getattr(f[2], "__name__", f[2]), f[4]) for f in warnings.filters])
     put("logging.disable", lambda: _logging.root.manager.disable)
     put("logging.root.level", lambda: _logging.root.level)
+    for n_, l_ in list(_logging.root.manager.loggerDict.items()):
+        if hasattr(l_, "level"):
+            out["setting:logger " + n_] = repr((l_.level, len(l_.handlers or []), l_.disabled, l_.propagate))
+    put("logging.root.handlers", lambda: len(_logging.root.handlers))
+    put("decimal.traps", lambda: sorted(str(k) for k, v in decimal.getcontext().traps.items() if v))
     put("cwd", os.getcwd)
     put("os.environ", lambda: hashlib.sha256(repr(sorted(os.environ.items())).encode()).hexdigest()[:16])
     put("sys.path", lambda: hashlib.sha256(repr(sys.path).encode()).hexdigest()[:16])
@@ -148,6 +153,8 @@ def state_diff(before, after):
     for k in after:
         if k not in before and k.startswith("setting:sharepoint2text") and after[k] != "None":
             mism.append((k, f"(absent) -> {str(after[k])[:80]}"))
+        if k not in before and k.startswith("setting:logger ") and after[k] != repr((0, 0, False, True)):
+            mism.append((k, f"(created) -> {after[k]}"))        # a logger that did not exist yet is fine as long as it has the default settings
     return mism
 
 
